@@ -661,6 +661,74 @@ func genFloatChain(r *vh.Rand) in {
 	return v
 }
 
+// raw images with explicit offsets declared out of order in a bare structure of 4096 bytes at 1M (followed by a structure
+// right behind it): k = 2..4 images in slots of 4096/k bytes, every declaration order; the image in the physically last
+// slot fits exactly, sticks out by one byte, or by a whole slot - so every position in declaration order is, in some
+// case, the one that does not fit. Plus implicit-offset images after an explicit one.
+func contentFamilies() []in {
+	const S = 4096
+	var out []in
+	mk := func(cs []contentIn) in {
+		return in{Structs: []structIn{
+			{Kind: "bare", Off: q(1, "M"), Size: q(S, ""), Content: cs},
+			{Kind: "part", Off: q(1<<20+S, ""), Size: q(1, "M")}}}
+	}
+	var perms func(n int) [][]int
+	perms = func(n int) [][]int {
+		if n == 0 {
+			return [][]int{{}}
+		}
+		var res [][]int
+		for _, p := range perms(n - 1) {
+			for pos := 0; pos <= len(p); pos++ {
+				np := append(append(append([]int{}, p[:pos]...), n-1), p[pos:]...)
+				res = append(res, np)
+			}
+		}
+		return res
+	}
+	for k := 2; k <= 4; k++ {
+		w := int64(S / k)
+		for _, p := range perms(k) {
+			for v, extra := range []int64{0, 1, w} {
+				var cs []contentIn
+				for d, slot := range p {
+					sz := w
+					if slot == k-1 {
+						sz = int64(S) - int64(k-1)*w + extra
+					}
+					c := contentIn{Off: q(int64(slot)*w, ""), Img: sz}
+					if (d+v)%3 == 0 { // declared size a little above the file size
+						c.Size = q(sz, "")
+						c.Img = sz - 1
+					}
+					cs = append(cs, c)
+				}
+				out = append(out, mk(cs))
+			}
+		}
+	}
+	e := func(off, sz int64) contentIn { return contentIn{Off: q(off, ""), Img: sz} }
+	i := func(sz int64) contentIn { return contentIn{Img: sz} }
+	for _, cs := range [][]contentIn{
+		{e(2048, 1024), i(1024), e(0, 1024)},  // fits
+		{e(2048, 1024), i(1025), e(0, 1024)},  // the implicit one in the middle of the declaration sticks out
+		{e(3072, 1024), i(1), e(0, 10)},       // implicit image starts at the end of the structure
+		{e(3072, 1024), i(0), e(0, 10)},       // empty image at the very end: fits
+		{e(0, 1024), e(3072, 1025), i(5)},     // explicit overflow followed by an implicit one
+		{e(1024, 3073), e(0, 1024)},           // first declared, physically last, one byte too long
+		{e(1024, 3072), e(0, 1024)},           // fits exactly
+		{i(100), e(4000, 97), e(200, 100)},    // 4097
+		{i(100), e(4000, 96), e(200, 100), i(50)},
+		{e(4096, 1), e(0, 1)},                 // starts at the end
+		{e(4097, 0), e(0, 1)},                 // empty image beyond the end
+		{e(2048, 1024), e(1024, 1025), e(0, 1024)}, // non-last overlap with a neighbour image, all inside
+	} {
+		out = append(out, mk(cs))
+	}
+	return out
+}
+
 func gen(r *vh.Rand, tier string, n int) []in {
 	if n == 0 {
 		n = 1200
@@ -672,6 +740,7 @@ func gen(r *vh.Rand, tier string, n int) []in {
 		ins = append(ins, smallScope(2)...)
 	}
 	ins = append(ins, floatChains()...)
+	ins = append(ins, contentFamilies()...)
 	for k := 0; k < n; k++ {
 		if k%8 == 7 {
 			ins = append(ins, genHuge(r))
